@@ -109,7 +109,7 @@ _G = ["execAll", "execAsyncAll"]
 _A = ["execCall", "execAsyncCall"]
 _E = ["eventCall", "smSend"]
 SRC_TIE = {
-    "C07": ["eventCall", "reservedNames", "injectedNames"],
+    "C07": ["eventCall", "reservedNames", "injectedNames", "bindExpected", "callableMethod"],
     "C13": _E,
     "C01": ["triggerSync", "triggerAsync"] + _W + _G,
     "C02": ["activateSync", "activateAsync"] + _W + _A,
@@ -123,6 +123,8 @@ SRC_TIE = {
 }
 TIE_MOD = "SMV.Src.Tie"
 TIE_MODS = ["SMV.Src.Tie", "SMV.Src.TieExpr"]
+# further tie modules, built and audited only for the properties whose index names their theorems
+TIE_EXTRA = {"C07": ["SMV.Src.TieBind"]}
 
 
 def source_tie(ctx: Ctx):
@@ -187,7 +189,7 @@ def lean_obligations(ctx: Ctx, modules=None):
     mod = f"SMV.Props.{prop}"
     failed = []
     t = time.time()
-    mods = [mod] + (TIE_MODS if prop in SRC_TIE else [])
+    mods = [mod] + (TIE_MODS + TIE_EXTRA.get(prop, []) if prop in SRC_TIE else [])
     b = subprocess.run(["lake", "build", *mods, "driver"], cwd=LEAN, capture_output=True, text=True)
     if b.returncode != 0:
         failed.append("build:" + (b.stdout + b.stderr)[-1500:])
